@@ -118,6 +118,9 @@ impl Property for C04 {
     fn id(&self) -> &'static str {
         "C04"
     }
+    fn fuzzable(&self) -> bool {
+        true
+    }
     fn rule(&self) -> String {
         "cases: domains A (compiler outputs) and B (models straight from the tape, ~10% with pools > 256 constants, methods >= 256 and > 10000 instructions) as in C03. writer conformance: an independent strict reader of the documented layout (no trailing bytes) decodes FML's output to exactly project(P) and the image equals the canonical image; reader conformance: FML loads the independent writer's image as exactly that model and re-serializes it byte-identically. non-trivial: the image contains a multi-byte UTF-8 string, or an index/count >= 256, or a negative or >= 256 integer, or a method with >= 256 instructions; distinct by image".into()
     }
@@ -204,6 +207,14 @@ impl Property for C04 {
                 ctx.label("pool>=256");
             }
             reader_conformance(&m, &case, ctx)?;
+            // the same file through the real command line (buffered file and stdin readers):
+            // its listing must denote the model - sampled, and always for files > 8 KiB
+            let image = writer::write(&m);
+            let has_break = m.consts.iter().any(|c| matches!(c, Const::Str(s) if s.contains('\n') || s.contains('\r')));
+            if !has_break && (tape_sample(tape, ctx.tier.pick(150, 60)) || (image.len() > 8192 && tape_sample(tape, 3))) {
+                ctx.label(if image.len() > 8192 { "cli-load:file>8KiB" } else { "cli-load" });
+                crate::props::c17::judge_bytes(&image, ctx, &case, true)?;
+            }
             for rev in &[false, true] {
                 match gm::build_program(&m, *rev) {
                     Ok(p) => writer_conformance(&p, &case, ctx, if *rev { "B/built-reversed" } else { "B/built" })?,
